@@ -293,6 +293,369 @@ def select_fns(kind):
     _, chk_f, byf, feats, dss = dataset_fns()
     return [sel, chk, dss, byf, chk_f, feats]
 
+GEN_H = 'specs/C08/gen.h'
+GENERATOR_TU = 'src/generator.cpp'
+
+GEN_SETUP = r'''
+  struct nv_generator gen; struct nv_ds ds; int64_t f; int64_t g;
+  __CPROVER_assume(0 <= ds.samples && ds.samples <= NV_MAXN);
+  gen.m_datasource = &ds;
+  __CPROVER_assume(0 <= gen.m_feature_infos.n && gen.m_feature_infos.n <= NV_MAXN);
+  gen.m_feature_infos.p = malloc(gen.m_feature_infos.n);
+  gen.m_feature_shuffles.n = gen.m_feature_infos.n;
+  gen.m_feature_shuffles.has = malloc(gen.m_feature_shuffles.n);
+  gen.m_feature_shuffles.kv = malloc(gen.m_feature_shuffles.n * sizeof(struct nv_kv));
+  __CPROVER_assume(gen.m_feature_infos.p != NULL && gen.m_feature_shuffles.has != NULL && gen.m_feature_shuffles.kv != NULL);
+  __CPROVER_assume(0 <= f && f < gen.m_feature_infos.n && 0 <= g && g < gen.m_feature_infos.n);
+  __CPROVER_assume(NV_GEN_INV(&gen, f) && NV_GEN_INV(&gen, g));        /* any reachable state */
+  nv_thrown = 0;
+  _Bool dropped_g = gen_should_drop(&gen, g);
+  struct nv_idx shuf_g = gen_shuffled(&gen, g);
+'''
+GEN_SAME_SHUF = '(now.n == shuf_g.n && (now.n == 0 || (now.id == shuf_g.id && (now.perm != 0) == (shuf_g.perm != 0))))'
+GEN_HARNESS = {
+    'drop': r'''
+  gen_drop(&gen, f);
+  __CPROVER_assert(gen_should_drop(&gen, f), "drop(f): f is dropped (its views become missing)");
+  struct nv_idx now = gen_shuffled(&gen, g);
+  __CPROVER_assert(g == f || gen_should_drop(&gen, g) == dropped_g, "drop(f): the dropped flag of every other feature is unchanged");
+  __CPROVER_assert(g == f || SAME_SHUF, "drop(f): the permutation of every other feature is unchanged");
+''',
+    'shuffle': r'''
+  gen_shuffle(&gen, f);
+  struct nv_idx mine = gen_shuffled(&gen, f);
+  __CPROVER_assert(!nv_thrown, "shuffle(f): does not throw on a fitted generator");
+  __CPROVER_assert(mine.n == ds.samples && mine.perm, "shuffle(f): the reported bijection of f is a permutation of all samples");
+  __CPROVER_assert(!gen_should_drop(&gen, f), "shuffle(f): f is visible (not dropped)");
+  struct nv_idx now = gen_shuffled(&gen, g);
+  __CPROVER_assert(g == f || gen_should_drop(&gen, g) == dropped_g, "shuffle(f): the dropped flag of every other feature is unchanged");
+  __CPROVER_assert(g == f || SAME_SHUF, "shuffle(f): the permutation of every other feature is unchanged");
+''',
+    'undrop': r'''
+  gen_undrop(&gen);
+  struct nv_idx now = gen_shuffled(&gen, g);
+  __CPROVER_assert(!gen_should_drop(&gen, g), "undrop(): no feature is dropped");
+  __CPROVER_assert(now.n == 0 || SAME_SHUF, "undrop(): the permutation of every feature is unchanged or gone");
+''',
+    'unshuffle': r'''
+  gen_unshuffle(&gen);
+  struct nv_idx now = gen_shuffled(&gen, g);
+  __CPROVER_assert(now.n == 0, "unshuffle(): no feature is shuffled");
+  __CPROVER_assert(!gen_should_drop(&gen, g) || dropped_g, "unshuffle(): the dropped flag of every feature is unchanged or cleared");
+'''}
+
+
+def gen_harness(op):
+    body = GEN_HARNESS[op].replace('SAME_SHUF', GEN_SAME_SHUF)
+    return ('int main(void)\n{' + GEN_SETUP + body +
+            '  __CPROVER_assert(NV_GEN_INV(&gen, f) && NV_GEN_INV(&gen, g), "' + op + ': the representation invariant (flag byte is 0 / 1 / 2, a flag 2 owns a permutation of all samples) is re-established");\n'
+            '  __CPROVER_assert(0, "nv_canary: end of harness reachable");\n  return 0;\n}\n')
+
+
+def gen_fns(names):
+    umap = r'std::unordered_map<long, nano::tensor_t<nano::tensor_vector_storage_t, long, 1>>'
+    types = [(r'^nano::generator_t$', 'struct nv_generator'), (r'^nano::datasource_t$', 'struct nv_ds'),
+             (r'^nano::rng_t$|^std::linear_congruential_engine<', 'struct nv_rng'),
+             (r'^nano::indices_c?map_t$|^nano::indices_t$|tensor_t<nano::tensor_(vector|carray)_storage_t, long, 1>$', 'struct nv_idx'),
+             (r'const_iterator$|^std::__detail::_Node_const_iterator<', 'struct nv_shufit'),
+             (r'^nano::(scalar|sclass|mclass|struct)_map_t$|tensor_t<nano::tensor_marray_storage_t, (double|int|signed char), \d>$', 'struct nv_store'),
+             (r'tensor_t<nano::tensor_vector_storage_t, unsigned char, 1>$|feature_infos_t$', 'struct nv_mask')]
+    common = dict(self_struct='struct nv_generator', types=types, uf_float=False,
+                  calls=[(r'^operator\(\)\|typename tbase::t(const|mutable)ref \(const nano::tensor_size_t\)', '{0}.p[{1}]'),
+                         (r'^operator=\|Eigen::ArrayWrapper<Eigen::Map<Eigen::Matrix<unsigned char, -1, 1, 0>, 0>> &\(const .*Scalar &\)', 'nv_mask_fill({0}, {&1})'),
+                         (r'^make_rng\|', 'nv_make_rng()'), (r'^arange\|', 'nv_arange({0}, {1})'),
+                         (r'^(begin|end)\|auto \(nano::tensor_t<nano::tensor_vector_storage_t, long, 1> &\)', '{&0}'),
+                         (r'^shuffle\|void \(long \*, long \*, std::linear_congruential_engine', 'nv_std_shuffle({0}, {1})'),
+                         (r'^operator\[\]\|' + umap.replace('<', '<').replace('(', '\\(') + r'::mapped_type &', '(*nv_shufmap_at({&0}, {1}))'),
+                         (r'^operator=\|nano::tensor_t<nano::tensor_vector_storage_t, long, 1> &\(const nano::tensor_t<nano::tensor_vector_storage_t, long, 1> &\)', '({0} = {1})'),
+                         (r'^operator->\|std::__detail::_Node_const_iterator<.*::pointer \(\) const', 'nv_shufit_deref({&0})'),
+                         (r'^ctor\|nano::tensor_t<nano::tensor_carray_storage_t, long, 1>\|void \(const ', '{0}')],
+                  members=[(r'^array\|nano::tensor_t<nano::tensor_vector_storage_t, unsigned char, 1>', '{self}'),
+                           (r'^clear\|std::unordered_map<long,', 'nv_shufmap_clear'),
+                           (r'^find\|std::unordered_map<long,', 'nv_shufmap_find({self}, {0})'),
+                           (r'^datasource\|nano::generator_t', '(*nv_gen_datasource({self}))!'),
+                           (r'^samples\|nano::datasource_t', '{*self}.samples'),
+                           (r'^should_drop\|nano::generator_t', 'gen_should_drop'),
+                           (r'^full\|nano::tensor_t<nano::tensor_marray_storage_t, double, \d>', 'nv_store_full_d'),
+                           (r'^full\|nano::tensor_t<nano::tensor_marray_storage_t, (int|signed char), \d>', 'nv_store_full_i'),
+                           (r'^do_select\|nano::generator_t', 'nv_do_select')])
+    flt = 'nano::generator_t::'
+    table = {
+        'drop': ('drop', None), 'undrop': ('undrop', None), 'shuffle': ('shuffle', None), 'unshuffle': ('unshuffle', None),
+        'should_drop': ('should_drop', None),
+        'shuffled': ('shuffled', lambda d: len(astload.param_types(d)) == 1),
+    }
+    for kind in ('scalar', 'sclass', 'mclass', 'struct'):
+        table['select_' + kind] = ('select', (lambda k: lambda d: astload.param_types(d)[-1] == f'nano::{k}_map_t')(kind))
+    return [Fn('gen_' + n, GENERATOR_TU, table[n][0], flt=flt, select=table[n][1], **common) for n in names]
+
+PAIR_H = 'specs/C08/pairwise.h'
+PAIR_TU = 'src/generator/pairwise_product.cpp'      # explicit instantiation of pairwise_generator_t<pairwise_product_t>
+STORAGE = [('f32', 'float', 'float'), ('f64', 'double', 'double'), ('i8', 'signed char', 'int8_t'), ('i16', 'short', 'int16_t'),
+           ('i32', 'int', 'int32_t'), ('i64', 'long', 'int64_t'), ('u8', 'unsigned char', 'uint8_t'), ('u16', 'unsigned short', 'uint16_t'),
+           ('u32', 'unsigned int', 'uint32_t'), ('u64', 'unsigned long', 'uint64_t')]
+
+
+def product_op_fn(t1, t2, uf=False):
+    """the instantiation of the generic lambda in pairwise_product_t::process for the storage types (t1, t2)"""
+    cxx = lambda t: f'nano::tensor_t<nano::tensor_carray_storage_t, {t[1]}, 3>'
+    types = [(r'^nano::tensor_t<nano::tensor_carray_storage_t, ' + t[1] + r', 3>$', 'struct nv_t3_' + t[0]) for t in STORAGE]
+    types += [(r'^\(lambda at .*pairwise_product\.h:\d+:\d+\)$', 'struct nv_op')]
+    return Fn(f'product_op_{t1[0]}_{t2[0]}', PAIR_TU, 'process', flt='nano::pairwise_product_t::process', lambda_index=0,
+              lambda_select=lambda m: astload.template_args(m) == [cxx(t1), cxx(t2)], self_struct='struct nv_op', types=types,
+              calls=[(r'^operator\(\)\|typename tbase::tconstref \(const nano::tensor_size_t\) const', '{0}.p[{1}]')], uf_float=uf)
+
+
+def product_target(t1):
+    body = ['int main(void)\n{\n  struct nv_op op; nv_thrown = 0;']
+    fns = []
+    for t2 in STORAGE:
+        fns.append(product_op_fn(t1, t2))
+        body.append(f'  {{ {t1[2]} v1; {t2[2]} v2; struct nv_t3_{t1[0]} a; struct nv_t3_{t2[0]} b; a.p = &v1; a.n = 1; b.p = &v2; b.n = 1;\n'
+                    f'    double r = product_op_{t1[0]}_{t2[0]}(&op, &a, &b);\n'
+                    f'    __CPROVER_assert(NV_SAME(r, (double)v1 * (double)v2), "product({t1[0]}, {t2[0]}): the value is the product of the two stored values taken in scalar_t"); }}')
+    body.append('  __CPROVER_assert(0, "nv_canary: end of harness reachable");\n  return 0;\n}\n')
+    return Target('product_op_' + t1[0], fns, PAIR_H, enforce_none=True, harness="\n".join(body), timeout=30)
+
+PAIRLOOP_H = 'specs/C08/pairloop.h'
+PAIR_IT = 'nano::datasource_pairwise_iterator_t<int, 4, unsigned int, 4>'
+
+
+def process_hook(P, n):
+    """`this->process(ifeature)` (a static member called through this: the callee is a MemberExpr, not a DeclRefExpr)"""
+    if n.get('kind') != 'CallExpr' or not n.get('inner'):
+        return None
+    from cxx2c import unwrap
+    c = unwrap(n['inner'][0])
+    if c.get('kind') != 'MemberExpr' or c.get('name') != 'process' or len(n['inner']) != 2:
+        return None
+    P.note('this->process(ifeature) -> nv_process')
+    return f'nv_process({P.expr(n["inner"][1])})'
+
+
+def pairloop_fns(which):
+    t3 = lambda t: r'tensor_t<nano::tensor_carray_storage_t, ' + t + r', 3>'
+    types = [(r'^nano::base_datasource_iterator_t$', 'struct nv_iter'),
+             (r'^' + PAIR_IT.replace('<', '<') + r'$', 'struct nv_pairiter'),
+             (r'^nano::indices_cmap_t$|tensor_t<nano::tensor_carray_storage_t, long, 1>', 'struct nv_ilist'),
+             (r'^nano::mask_cmap_t$|tensor_t<nano::tensor_carray_storage_t, unsigned char, 1>', 'struct nv_mask'),
+             (r'data[12]_cmap_t$|tensor_t<nano::tensor_carray_storage_t, (int|unsigned int), 4>$', 'struct nv_t4'),
+             (r'^(nano::)?' + t3('int') + '$', 'struct nv_t3_i32'), (r'^(nano::)?' + t3('unsigned int') + '$', 'struct nv_t3_u32'),
+             (r'^nano::tensor2d_map_t$|tensor_t<nano::tensor_marray_storage_t, double, 2>', 'struct nv_t2d'),
+             (r'^nano::scalar_map_t$|tensor_t<nano::tensor_marray_storage_t, double, 1>', 'struct nv_t1d_out'),
+             (r'^std::tuple<long, bool, nano::' + t3('int') + ', bool, nano::' + t3('unsigned int') + r'>$|^tuple<typename __decay_and_strip<long>::__type, typename __decay_and_strip< ?bool &>::__type, typename __decay_and_strip<' + t3('int') + '>::__type, typename __decay_and_strip< ?bool &>::__type, typename __decay_and_strip<' + t3('unsigned int') + '>::__type>$', 'struct nv_tuple5'),
+             (r'^std::tuple<\(lambda at .*pairwise_product\.h:\d+:\d+\), long>$', 'struct nv_tuple_op_i64'),
+             (r'^\(lambda at .*pairwise_product\.h:\d+:\d+\)$', 'struct nv_op')]
+    ilist = [(r'^operator\(\)\|typename tbase::tconstref \(const nano::tensor_size_t\) const\|.*tensor_carray_storage_t, long, 1>', 'nv_ilist_at({&0}, {1})')]
+    size1 = [(r'^size\|nano::tensor_base_t<long, 1, true>', '{*self}.n')]
+    flt = 'nano::base_datasource_iterator_t'
+    base = dict(self_struct='struct nv_iter', types=types, calls=ilist, uf_float=False,
+                members=size1 + [(r'^index\|nano::base_datasource_iterator_t', 'iter_index'), (r'^size\|nano::base_datasource_iterator_t', 'iter_size')])
+    fns = [Fn('iter_sample', DRV, 'sample', flt=flt, **base),
+           Fn('iter_inc', DRV, 'operator++', flt=flt, select=lambda d: astload.param_types(d) == [], **base),
+           Fn('iter_bool', DRV, 'operator bool', flt=flt, kinds=('CXXConversionDecl',), **base),
+           Fn('iter_index', DRV, 'index', flt=flt, **base), Fn('iter_size', DRV, 'size', flt=flt, **base),
+           Fn('mask_getbit', MASK_TU, 'getbit', flt='nano::getbit', types=types, calls=ELEM, uf_float=False)]
+    deref = Fn('pairiter_deref', PAIR_TU, 'operator*', flt='nano::datasource_pairwise_iterator_t',
+               select=lambda d: re_search(r'__decay_and_strip<tensor_t<nano::tensor_carray_storage_t, int, 3>>::__type, typename __decay_and_strip<const bool &>::__type, typename __decay_and_strip<tensor_t<nano::tensor_carray_storage_t, unsigned int, 3>>', d['type']['qualType']),
+               self_struct='struct nv_pairiter', types=types, uf_float=False,
+               calls=[(r'^getbit\|', 'mask_getbit'), (r'^make_tuple\|', '(struct nv_tuple5){ {0}, {1}, {2}, {3}, {4} }')],
+               members=[(r'^sample\|nano::base_datasource_iterator_t \*', 'iter_sample(&{self}->base)'),
+                        (r'^index\|nano::base_datasource_iterator_t \*', 'iter_index(&{self}->base)'),
+                        (r'^tensor\|nano::tensor_t<nano::tensor_carray_storage_t, int, 4>', 'nv_t4_tensor_i32'),
+                        (r'^tensor\|nano::tensor_t<nano::tensor_carray_storage_t, unsigned int, 4>', 'nv_t4_tensor_u32')])
+    i32, u32 = [t for t in STORAGE if t[0] == 'i32'][0], [t for t in STORAGE if t[0] == 'u32'][0]
+    op = product_op_fn(i32, u32, uf=True)   # the arithmetic is the product_op_* targets' business: here the product is uninterpreted
+    loop_common = dict(self_struct='struct nv_gen', types=types, uf_float=False, hooks=[process_hook],
+                       members=[(r'^operator bool\|nano::base_datasource_iterator_t', 'iter_bool(&({*self}).base)')])
+    loop_calls = [(r'^operator\*\|tuple<.*\(\) const\|', 'pairiter_deref'),
+                  (r'^operator\+\+\|nano::base_datasource_iterator_t &\(\)', 'iter_inc(&({0}).base)'),
+                  (r'^operator\(\)\|(double|nano::scalar_t) \(const nano::tensor_t<nano::tensor_carray_storage_t, int, 3> &, const nano::tensor_t<nano::tensor_carray_storage_t, unsigned int, 3> &\) const', 'product_op_i32_u32')]
+    if which == 'select':
+        loop = Fn('pairwise_select_scalar', PAIR_TU, 'select_scalar', flt='pairwise_generator_t',
+                  select=lambda d: astload.template_args(d) == [PAIR_IT],
+                  calls=loop_calls + [(r'^operator\(\)\|typename tbase::tconstref \(const nano::tensor_size_t\) const\|.*tensor_marray_storage_t, double, 1>', '(*nv_out1_at({&0}, {1}))')], **loop_common)
+    else:
+        loop = Fn('pairwise_flatten', PAIR_TU, 'flatten', flt='pairwise_generator_t',
+                  select=lambda d: (lambda ta: len(ta) == 2 and 'pairwise_product.h' in ta[0] and ta[1] == PAIR_IT)(astload.template_args(d)),
+                  calls=loop_calls + [(r'^operator\(\)\|typename tbase::tconstref \(const nano::tensor_size_t, const (nano::tensor_size_t|long)\) const\|.*tensor_marray_storage_t, double, 2>', '(*nv_out2_at({&0}, {1}, {2}))')], **loop_common)
+    return [loop, deref, op] + fns
+
+
+def re_search(rx, text):
+    import re
+    return re.search(rx, text) is not None
+
+STORAGE_H = 'specs/C08/storage.h'
+DSRC_TU = 'src/datasource.cpp'
+POOLS = ['f32', 'f64', 'i08', 'i16', 'i32', 'i64', 'u08', 'u16', 'u32', 'u64']
+
+STORAGE_SETUP = r'''
+int main(void)
+{
+  struct nv_dsrc ds; struct nv_features features; int64_t samples; struct nv_visitor op; uint64_t target;
+  /* an arbitrary feature list, two arbitrary distinct features of it */
+  __CPROVER_assume(1 <= features.size && features.size <= NV_MAXF);
+  __CPROVER_assume(0 <= samples && samples <= NV_MAXN);
+  __CPROVER_assume(0 <= nv_g1 && (uint64_t)nv_g1 < features.size && NV_G2);
+  /* 1. which pool does the real visit() use?  (probe: the data source already holds the feature list) */
+  ds.m_features = features; ds.m_testing.n = samples;
+  ds.m_storage_range.rows = (int64_t)features.size; ds.m_storage_range.cols = 2;
+  nv_thrown = 0; nv_probe = 1; nv_accesses = 0;
+'''
+# one feature: visit() after resize() stays inside the pool it picks, on the range and the type resize() recorded
+STORAGE_ACCESS = STORAGE_SETUP.replace('NV_G2', 'nv_g2 == (int64_t)features.size /* one observed feature: the second ghost index is outside the list */') + r'''
+  nv_which = 1; dsrc_visit(&ds, nv_g1, &op);
+  __CPROVER_assert(!nv_thrown && nv_accesses == 1, "visit(): every feature kind is dispatched to exactly one pool access");
+  const struct nv_pool* probe1 = nv_P1;
+  /* 2. the real resize() */
+  nv_probe = 0;
+  dsrc_resize(&ds, samples, &features, target);
+  __CPROVER_assert(!nv_thrown, "resize(): does not throw");
+  __CPROVER_assert(ds.m_storage_type.size == features.size && ds.m_storage_range.rows == (int64_t)features.size && ds.m_features.size == features.size && ds.m_testing.n == samples,
+                   "resize(): one recorded type / range per feature, the feature list and the sample count are stored");
+  __CPROVER_assert(ds.m_storage_mask.rows == (int64_t)features.size && ds.m_storage_mask.cols == (samples + 7) / 8, "(d) resize(): the mask has one row per feature and (samples+7)/8 bytes per row");
+  __CPROVER_assert(nv_T1 == NV_POOL_TYPE(&ds, nv_P1), "(c) resize(): the recorded storage type of a feature is the type of the pool visit() uses for it");
+  /* 3. the real visit() again, on the resized data source ((a) is asserted at the access) */
+  nv_accesses = 0;
+  nv_which = 1; dsrc_visit(&ds, nv_g1, &op);
+  __CPROVER_assert(!nv_thrown && nv_accesses == 1 && nv_P1 == probe1, "visit(): the pool depends on the feature descriptor only");
+  __CPROVER_assert(nv_R1.m_begin == nv_RNG1[0] && nv_R1.m_end == nv_RNG1[1], "visit(): slices exactly the range resize() stored for the feature");
+  __CPROVER_assert(0, "nv_canary: end of harness reachable");
+  return 0;
+}
+'''
+# exactly one feature, resize()'s loop unwound: the named clauses fail directly when the two dispatches disagree
+STORAGE_SINGLE = STORAGE_ACCESS.replace('1 <= features.size && features.size <= NV_MAXF', 'features.size == 1')
+# two features: rows of the same pool are never shared
+STORAGE_DISJOINT = STORAGE_SETUP.replace('NV_G2', '0 <= nv_g2 && (uint64_t)nv_g2 < features.size && nv_g1 != nv_g2') + r'''
+  nv_which = 1; dsrc_visit(&ds, nv_g1, &op);
+  nv_which = 2; dsrc_visit(&ds, nv_g2, &op);
+  __CPROVER_assert(!nv_thrown && nv_accesses == 2, "visit(): every feature kind is dispatched to exactly one pool access");
+  nv_probe = 0;
+  dsrc_resize(&ds, samples, &features, target);
+  __CPROVER_assert(nv_P1 != nv_P2 || nv_RNG1[1] <= nv_RNG2[0] || nv_RNG2[1] <= nv_RNG1[0],
+                   "(b) two different features that visit() serves from the same pool never share rows of it");
+  __CPROVER_assert(0, "nv_canary: end of harness reachable");
+  return 0;
+}
+'''
+
+
+def static_constexpr_hook(tu, cls, names):
+    """a static constexpr data member (maxu08, ...) prints as its initialiser expression, read from the class on every run"""
+    def h(P, n):
+        if n.get('kind') != 'DeclRefExpr':
+            return None
+        rd = n.get('referencedDecl', {})
+        if rd.get('kind') != 'VarDecl' or rd.get('name') not in names:
+            return None
+        found = []
+        for d in astload.dump(tu, f'{cls}::{rd["name"]}'):
+            for x in astload.walk(d):
+                if x.get('kind') == 'VarDecl' and x.get('name') == rd['name']:
+                    init = [y for y in x.get('inner', []) if y.get('kind') not in ('FullComment',)]
+                    if init:
+                        found.append(init[0])
+        if not found:
+            from cxx2c import Unsupported
+            raise Unsupported(f'initialiser of {cls}::{rd["name"]} not found')
+        P.note(f'{cls}::{rd["name"]} -> its initialiser')
+        return '(' + P.expr(found[0]) + ')'
+    return h
+
+
+def pool_access_hook(P, n):
+    """op(feature, m_storage_X.slice(range).reshape(...), mask)  ->  nv_visit_access(self, &self->m_storage_X, range):
+    the operator (a lambda of the caller) is not translated; which pool is sliced with which range is what matters"""
+    from cxx2c import unwrap, Unsupported
+    if n.get('kind') != 'CXXOperatorCallExpr' or len(n.get('inner', [])) != 5:
+        return None
+    callee = unwrap(n['inner'][0]).get('referencedDecl', {})
+    obj = unwrap(n['inner'][1])
+    if callee.get('name') != 'operator()' or obj.get('referencedDecl', {}).get('name') != 'op':
+        return None
+    data = unwrap(n['inner'][3])
+    while data.get('kind') in ('MaterializeTemporaryExpr', 'ImplicitCastExpr', 'CXXBindTemporaryExpr', 'ExprWithCleanups'):
+        data = data['inner'][0]
+    if data.get('kind') != 'CXXMemberCallExpr' or data['inner'][0].get('name') != 'reshape':
+        raise Unsupported('visit(): the data handed to op is not pool.slice(range).reshape(...)')
+    sl = data['inner'][0]['inner'][0]
+    while sl.get('kind') in ('MaterializeTemporaryExpr', 'ImplicitCastExpr', 'CXXBindTemporaryExpr'):
+        sl = sl['inner'][0]
+    if sl.get('kind') != 'CXXMemberCallExpr' or sl['inner'][0].get('name') != 'slice' or len(sl['inner']) != 2:
+        raise Unsupported('visit(): the data handed to op is not pool.slice(range).reshape(...)')
+    pool = sl['inner'][0]['inner'][0]
+    P.note('op(feature, pool.slice(range).reshape(..), mask) -> nv_visit_access')
+    return f'nv_visit_access(self, {P.addr(pool)}, {P.expr(sl["inner"][1])})'
+
+
+def range_tensor_hook(P, n):
+    """m_storage_range and the int64 value pool have the same C++ type (tensor_mem_t<tensor_size_t, 2>) but different C
+    models (the range table has memory, a pool only dimensions): resize() on the range table is told apart by member name"""
+    if n.get('kind') != 'CXXMemberCallExpr':
+        return None
+    me = n['inner'][0]
+    if me.get('kind') != 'MemberExpr' or me.get('name') != 'resize':
+        return None
+    obj = me['inner'][0]
+    while obj.get('kind') == 'ImplicitCastExpr':
+        obj = obj['inner'][0]
+    if obj.get('kind') != 'MemberExpr' or obj.get('name') != 'm_storage_range':
+        return None
+    P.note('m_storage_range.resize(rows, cols)')
+    return f'nv_t2i_resize({P.addr(obj)}, {P.expr(n["inner"][1])}, {P.expr(n["inner"][2])})'
+
+
+def storage_fns(const_visit=True):
+    types = [(r'^nano::datasource_t$', 'struct nv_dsrc'), (r'^nano::feature_t$|value_type$', 'struct nv_feat'),
+             (r'^nano::features_t$|^std::vector<nano::feature_t>$', 'struct nv_features'),
+             (r'^nano::feature_type$', 'int32_t'), (r'^std::unordered_map<nano::feature_type, long>$', 'struct nv_counts'),
+             (r'^std::pair<long, long>$|^pair<typename __decay_and_strip< ?(const )?long ?&?>::__type, typename __decay_and_strip< ?(const )?long ?&?>::__type>$', 'struct nv_pair_i64'), (r'^nano::tensor_range_t$', 'struct nv_range'),
+             (r'^nano::tensor3d_dims_t$|^std::array<long, 3>$', 'struct nv_dims3'),
+             (r'^nano::mask_c?map_t$|tensor_t<nano::tensor_c?m?array_storage_t, unsigned char, 1>', 'struct nv_mask1'),
+             (r'^\(lambda at .*datasource\.cpp:\d+:\d+\)$', 'struct nv_visitor')]
+    feat_members = [(r'^type\|nano::feature_t', 'nv_feat_type'), (r'^classes\|nano::feature_t', 'nv_feat_classes'),
+                    (r'^dims\|nano::feature_t', '{*self}.m_dims')]
+    hooks = [static_constexpr_hook(DSRC_TU, 'nano::datasource_t', ('maxu08', 'maxu16', 'maxu32')), pool_access_hook, range_tensor_hook]
+    t2 = (r'^operator\(\)\|typename tbase::t(const|mutable)ref \(const nano::tensor_size_t, const int\)( const)?\|.*tensor_vector_storage_t, long, 2>', '(*nv_t2i_at({&0}, {1}, {2}))')
+    vec_at = (r'^operator\[\]\|std::vector<nano::feature_t>::(const_)?reference \(std::vector::size_type\)', '(*nv_feature_at({&0}, {1}))')
+    # visit() has a const overload (readers; instantiated in src/datasource.cpp by load()) and a non-const one (the writer
+    # datasource_t::set; instantiated in src/datasource/tabular.cpp): both dispatch on their own
+    vtu = DSRC_TU if const_visit else 'src/datasource/tabular.cpp'
+    vsel = (lambda d: len(astload.template_args(d)) == 1 and 'datasource.cpp' in astload.template_args(d)[0] and d['type']['qualType'].rstrip().endswith('const')) if const_visit \
+        else (lambda d: len(astload.template_args(d)) == 1 and 'datasource.h' in astload.template_args(d)[0] and not d['type']['qualType'].rstrip().endswith('const'))
+    visit = Fn('dsrc_visit', vtu, 'visit', flt='nano::datasource_t::visit', select=vsel,
+               self_struct='struct nv_dsrc', types=types + [(r'^\(lambda at .*datasource\.h:\d+:\d+\)$', 'struct nv_visitor')], uf_float=False,
+               hooks=[static_constexpr_hook(vtu, 'nano::datasource_t', ('maxu08', 'maxu16', 'maxu32')), pool_access_hook, range_tensor_hook], aggregates=['struct nv_range'],
+               calls=[t2, vec_at, (r'^make_range\|', '(struct nv_range){ {0}, {1} }'), (r'^critical0\|', 'nv_throw()')],
+               members=feat_members + [(r'^samples\|nano::datasource_t', '{self}->m_testing.n'), (r'^mask\|nano::datasource_t', 'nv_dsrc_mask')])
+    upd = lambda nm, t: Fn(nm, DSRC_TU, 'resize', flt='nano::datasource_t::resize', select=lambda d: len(astload.param_types(d)) == 3,
+                           lambda_index=0, lambda_select=lambda m: astload.param_types(m)[1] == t, captures=True, types=types, uf_float=False,
+                           aggregates=['struct nv_pair_i64'],
+                           calls=[(r'^operator\[\]\|std::unordered_map<nano::feature_type, long>::mapped_type &', '(*nv_counts_at({&0}, {1}))'),
+                                  (r'^make_pair\|', '(struct nv_pair_i64){ {0}, {1} }')])
+    pool_rx = r'nano::tensor_(t<nano::tensor_vector_storage_t, |vector_storage_t<)(float|double|signed char|short|int|long|unsigned char|unsigned short|unsigned int|unsigned long), 2>'
+    resize = Fn('dsrc_resize', DSRC_TU, 'resize', flt='nano::datasource_t::resize', select=lambda d: len(astload.param_types(d)) == 3,
+                self_struct='struct nv_dsrc', types=types + [(r'^std::vector<nano::feature_type>$|storage_type_t$', 'struct nv_types')], uf_float=False, hooks=hooks,
+                aggregates=['struct nv_pair_i64'],
+                calls=[t2, vec_at,
+                       (r'^operator\(\)\|.*\(nano::feature_type, long\) const\|', 'resize_upd_i64({1}, {2}, &size_storage)'),
+                       (r'^operator\(\)\|.*\(nano::feature_type, int\) const\|', 'resize_upd_i32({1}, {2}, &size_storage)'),
+                       (r'^operator\[\]\|std::unordered_map<nano::feature_type, long>::mapped_type &', '(*nv_counts_at({&0}, {1}))'),
+                       (r'^operator\[\]\|std::vector<nano::feature_type>::reference \(std::vector::size_type\)', '(*nv_type_at({&0}, {1}))'),
+                       (r'^operator=\|std::pair<long, long> &', '({0} = {1})'),
+                       (r'^operator=\|std::vector<nano::feature_t> &', '({0} = {1})'),
+                       (r'^size\|nano::tensor_size_t \(const tensor_dims_t<3', 'nv_dims3_size({0})')],
+                members=feat_members + [(r'^size\|std::vector<nano::feature_t>', '{*self}.size'),
+                                        (r'^resize\|std::vector<nano::feature_type>', 'nv_types_resize'),
+                                        (r'^resize\|nano::tensor_t<nano::tensor_vector_storage_t, long, 2>', 'nv_t2i_resize'),
+                                        (r'^resize\|nano::tensor_(t<nano::tensor_vector_storage_t, |vector_storage_t<|base_t<)long, 1', 'nv_t1i_resize'),
+                                        (r'^zero\|nano::tensor_(t<nano::tensor_vector_storage_t, |vector_storage_t<|base_t<)long, 1', 'nv_t1i_zero'),
+                                        (r'^size\|nano::tensor_base_t<long, 2, true>', 'nv_t2i_size'),
+                                        (r'^resize\|' + pool_rx, 'nv_pool_resize'), (r'^zero\|' + pool_rx, 'nv_pool_zero')])
+    return [resize, upd('resize_upd_i64', 'long'), upd('resize_upd_i32', 'int'), visit]
+
 
 def build(tier):
     targets = []
@@ -321,6 +684,21 @@ def build(tier):
     _, g5, _ = mask_fns()
     targets.append(Target('dataset_guarded_read', [chk_s, dss, g5] + list(iter_fns()), DS_H, enforce_none=True, harness=GUARDED_READ))
     targets.append(Target('flatten_sclass_u8', flatten_fns(), FLAT_H))
+    for t1 in STORAGE:
+        targets.append(product_target(t1))
+    targets.append(Target('datasource_storage_access', storage_fns(), STORAGE_H, enforce_none=True, harness=STORAGE_ACCESS))
+    targets.append(Target('datasource_storage_disjoint', storage_fns(), STORAGE_H, enforce_none=True, harness=STORAGE_DISJOINT))
+    for nm, cv in (('datasource_storage_single', True), ('datasource_storage_single_w', False)):
+        targets.append(Target(nm, storage_fns(const_visit=cv), 'specs/C08/storage_single.h', enforce_none=True, harness=STORAGE_SINGLE, loops=0, cbmc_flags=['--unwind', '3', '--unwinding-assertions']))
+    targets.append(Target('datasource_storage_access_w', storage_fns(const_visit=False), STORAGE_H, enforce_none=True, harness=STORAGE_ACCESS))
+    targets.append(Target('datasource_storage_disjoint_w', storage_fns(const_visit=False), STORAGE_H, enforce_none=True, harness=STORAGE_DISJOINT))
+    targets.append(Target('pairwise_select_scalar', pairloop_fns('select'), PAIRLOOP_H))
+    targets.append(Target('pairwise_flatten', pairloop_fns('flatten'), PAIRLOOP_H))
+    for op in ('drop', 'shuffle', 'undrop', 'unshuffle'):
+        targets.append(Target('gen_' + op, gen_fns([op, 'should_drop', 'shuffled']), GEN_H, enforce_none=True, harness=gen_harness(op)))
+    targets.append(Target('gen_should_drop', gen_fns(['should_drop']), GEN_H))
+    for kind in ('scalar', 'sclass', 'mclass', 'struct'):
+        targets.append(Target('gen_select_' + kind, gen_fns(['select_' + kind, 'should_drop']), GEN_H))
     for kind in ('sclass', 'mclass', 'scalar', 'struct'):
         targets.append(Target('dataset_select_' + kind, select_fns(kind), SEL_H, replace=['dataset_byfeature']))
     return {
@@ -331,15 +709,22 @@ def build(tier):
             'range guards: dataset_t::check(feature) throws iff the index is outside [0, features()); byfeature rejects an invalid index before indexing and returns m_generators[mapping(feature, 0)] in bounds; check(samples) returning normally => every listed index >= 0 [proved] and < samples() [REFUTED on the unchanged library: `>` instead of `>=`]',
             'guarded read chain: real check(samples) + real iterator + real getbit: the sample handed to the storage readers is in [0, N) and every read is inside its buffer [REFUTED on the unchanged library for the index N]',
             'dataset_t::select(samples, feature, buffer) x4: the reader (generator_t::select) is reached only after the sample guard ran on this very list without throwing and with a valid feature index, on the mapped generator / local feature, one row per listed sample; an invalid feature index throws and nothing is read',
-            'one-hot flatten (elemwise_generator_t<sclass_identity_t>::flatten, 8-bit labels) with the real operator*, iterator, getbit and label operator: every cell of the processed rows inside [column, column+colsize) is +1 / -1 by the documented C-1 column encoding or NaN when the value is missing, every other cell is untouched, every row / segment / one-hot index is inside the buffer'],
+            'one-hot flatten (elemwise_generator_t<sclass_identity_t>::flatten, 8-bit labels) with the real operator*, iterator, getbit and label operator: every cell of the processed rows inside [column, column+colsize) is +1 / -1 by the documented C-1 column encoding or NaN when the value is missing, every other cell is untouched, every row / segment / one-hot index is inside the buffer',
+            'typed value pools: for every feature list (any length, kinds, class counts -- every storage-width boundary --, dimensions) the real visit() (reader and writer overload) slices the pool whose type the real resize() recorded for the feature, inside the rows resize() gave that pool; two features never share rows of a pool; the mask has one row per feature and (samples+7)/8 bytes; no width rule is written in the spec (the two real dispatches are compared); datasource_storage_access*: dsrc_resize.loop_invariant_step.3/.4 = clause (c)+(a) at the observed features, step.5 = clause (b); datasource_storage_single*: the same clauses as named assertions for one-feature data sources',
+            'pairwise product: the operator of pairwise_product_t::process equals (scalar_t)v1 * (scalar_t)v2 with IEEE semantics for all 10 x 10 storage-type instantiations; pairwise select_scalar / flatten (int32 x uint32): a cell is that product of the two stored sources of the sample behind the row when both are given, NaN otherwise, every other cell untouched, all reads in bounds',
+            'drop / shuffle protocol: transition contracts of drop / shuffle / undrop / unshuffle over every reachable state, observed through the real should_drop / shuffled readers (hence for every call sequence, by induction); generator_t::select x4: a dropped feature is filled with NaN / -1 and its values are not computed, otherwise do_select runs on exactly these arguments'],
         'not_decided': [
             'agreement of the per-feature and flattened views for the other 11 feature kinds / storage widths, product and gradient generators, targets; the column-to-feature bookkeeping built by dataset_t::update() (its invariant is assumed at the queried row)',
-            'drop / shuffle / undo histories (generator_t state), the thread-parallel dataset_t::flatten / targets bodies',
-            'datasource_t::visit (range -> slice -> reshape arithmetic) and datasource_t::set',
+            'the thread-parallel dataset_t::flatten / targets bodies; generator_t::shuffled(feature, samples) (the loop that applies the permutation) and flatten_dropped',
+            'the reshape arithmetic inside datasource_t::visit (only pool and row range are observed) and the value conversion in datasource_t::set / feature_storage_t',
+            'pairwise loops for the other 99 storage-type pairs and the sclass / mclass / struct pairwise generators (same template text, other instantiations)',
             'make_mask for rank > 1: the index of std::get<trank-1> is not visible in the AST dump of the instantiation',
             'empty sample lists: Eigen minCoeff/maxCoeff of an empty vector are undefined (the stubs return an arbitrary value)',
             'dataset_t::column2feature(column) has no range check at all (columns are not named by the property clause)'],
         'assumptions': [
+            'storage targets: feature_t::type() is one of the enumerators, classes() is in [0, 2^40], size(dims) is in [0, 2^40] (C16 proves nano::size); which enumerator a pool member stores (m_storage_u08 <-> uint8, ... by element type); the feature list, m_storage_type and m_storage_range are observed at two ghost features (other elements read as arbitrary values); unordered_map<feature_type, tensor_size_t>::operator[] value-initialises to 0; pool.resize(rows, samples) sets the dimensions',
+            'pairwise targets: tensor(sample) of a rank-4 value tensor is the component block of that sample (at least one component), observed at the stored sample behind the ghost row; process(ifeature) returns the operator checked in product_op_* and colsize 1; in the loop targets the double multiplication is uninterpreted (its arithmetic is decided in product_op_*)',
+            'generator targets: the permutation map is modelled over the keys [0, features) (operator[] inserts, find / iterator dereference, clear); arange(0, n) is a permutation of [0, n) and std::shuffle keeps it one; generator_t::NaN is a NaN; do_select / full are recorded by ghost variables',
             'indices.min() / indices.max() (Eigen minCoeff / maxCoeff): min <= a[g] and max >= a[g] at a ghost position g, arbitrary result for an empty list',
             'tensor_t::operator()(i) on rank-1 maps is p[i] (bounds become CBMC pointer checks); tensor_t::operator()(i, j) on the rank-2 feature mapping is the row-major element p[i*cols+j] with its index precondition checked at each use (C16 proves nano::index)',
             'tensor.size<k>() / size() return the k-th / only dimension; std::vector::operator[] is p[i] (bounds checked)',
@@ -359,38 +744,62 @@ _REPLAY = {}
 def replay(rp):
     """range-guard counterexamples (dataset_check_samples / dataset_guarded_read): the verifier's sample count N and the
     accepted list entry are replayed against a real in-memory datasource + dataset_t through the public API
-    (flatten / select); other targets have no native driver"""
+    (flatten / select).  Storage-dispatch, pairwise-product and drop/shuffle counterexamples run the matching scenario of
+    the same driver on the real library (class count taken from the counterexample where there is one)."""
     import replaylib
     out = {'reproduced': False, 'runs': []}
-    if rp['target'] not in ('dataset_check_samples', 'dataset_guarded_read'):
+    t = rp['target']
+    runs = []
+    if t in ('dataset_check_samples', 'dataset_guarded_read'):
+        cands = []
+        for fo in rp['failed_obligations']:
+            ce = fo.get('counterexample') or {}
+            n = None
+            idx = None
+            for k, v in ce.items():
+                if k.endswith('return_value_datasource_samples') or k.endswith('main::N'):
+                    n = v
+                if k.endswith('nv_w_index'):
+                    idx = v
+            try:
+                n, idx = int(str(n).rstrip('l')), int(str(idx).rstrip('l'))
+            except (TypeError, ValueError):
+                continue
+            if 0 <= n <= 2000000:
+                cands.append((n, idx))
+            elif idx == n:            # same input class at a size the driver can allocate: index == samples()
+                cands.append((16, 16))
+        if not cands:
+            cands = [(16, 16), (13, 13)]
+        runs = [[n, idx] for n, idx in dict.fromkeys(cands)]
+    elif t.startswith('datasource_storage'):
+        classes = []
+        for fo in rp['failed_obligations']:
+            for k, v in (fo.get('counterexample') or {}).items():
+                if k.endswith('nv_F1.m_classes') or k.endswith('nv_F2.m_classes'):
+                    try:
+                        c = int(str(v).rstrip('l'))
+                        if 2 <= c <= 70000:
+                            classes.append(c)
+                    except ValueError:
+                        pass
+        runs = [['storage', c] for c in dict.fromkeys(classes + [256, 65536])][:4]
+    elif t.startswith('product_op') or t.startswith('pairwise_'):
+        runs = [['product']]
+    elif t.startswith('gen_'):
+        runs = [['flags']]
+    else:
         out['note'] = 'no native driver for this target: the replay file carries the verifier output only'
         return out
-    cands = []
-    for fo in rp['failed_obligations']:
-        ce = fo.get('counterexample') or {}
-        n = None
-        idx = None
-        for k, v in ce.items():
-            if k.endswith('return_value_datasource_samples') or k.endswith('main::N'):
-                n = v
-            if k.endswith('nv_w_index'):
-                idx = v
-        try:
-            n, idx = int(str(n).rstrip('l')), int(str(idx).rstrip('l'))
-        except (TypeError, ValueError):
-            continue
-        if 0 <= n <= 2000000:
-            cands.append((n, idx))
-        elif idx == n:            # same input class at a size the driver can allocate: index == samples()
-            cands.append((16, 16))
-    if not cands:
-        cands = [(16, 16), (13, 13)]
-    if 'exe' not in _REPLAY:      # one build per run, shared by the replays of both range-guard targets
+    if 'exe' not in _REPLAY:      # one build per run, shared by all replays
         _REPLAY['exe'] = replaylib.build_with_library('replay/C08_replay.cpp', 'C08_replay')
     exe = _REPLAY['exe']
-    for n, idx in dict.fromkeys(cands):
-        rc, so, se = replaylib.run_driver(exe, [n, idx])
-        out['runs'].append({'samples': n, 'index': idx, 'exit': rc, 'output': so.strip()[:2000]})
+    for args in runs:
+        key = tuple(args)
+        if key not in _REPLAY:
+            _REPLAY[key] = replaylib.run_driver(exe, args)
+        rc, so, se = _REPLAY[key]
+        out['runs'].append({'args': args, 'exit': rc, 'output': so.strip()[:2000]})
         if rc == 1:
             out['reproduced'] = True
     return out
